@@ -662,6 +662,11 @@ class ExprMixin:
                 self.assume(smt.ForAll([j], smt.Implies(
                     smt.And(smt.Le(smt.IntC(0), j), smt.Lt(j, smt.SeqLen(r))),
                     smt.Exists([i], smt.And(rng, flt, smt.Eq(smt.SeqNth(r, j), self.term_of(e)))))))
+                # completeness: every selected source element appears in the result
+                self.assume(smt.ForAll([i], smt.Implies(
+                    smt.And(rng, flt),
+                    smt.Exists([j], smt.And(smt.Le(smt.IntC(0), j), smt.Lt(j, smt.SeqLen(r)),
+                                            smt.Eq(smt.SeqNth(r, j), self.term_of(e)))))))
                 return self.alloc_list(SSeqV(r, ety))
             ety = self.type_of_value(e)
             r = self.fresh_term('comp@%d' % node.lineno, smt.SeqS(type_sort(ety, self.env.classes)), False)
